@@ -11,21 +11,32 @@ InhChoices == { Absent, Some(<< <<"fr", "en">> >>), Some(<< <<"fr", "de">> >>), 
 
 \* textual variants: (section present, locales-dir, unknown field, text before, text after)
 Variant(i) ==
-    CASE i = 1 -> [section |-> TRUE,  dir |-> None, unknown |-> FALSE, pre |-> "plain", post |-> "none"]
-      [] i = 2 -> [section |-> TRUE,  dir |-> "tr", unknown |-> TRUE,  pre |-> "decoy", post |-> "deps"]
-      [] i = 3 -> [section |-> TRUE,  dir |-> "tr", unknown |-> FALSE, pre |-> "plain", post |-> "deps"]
-      [] i = 4 -> [section |-> TRUE,  dir |-> None, unknown |-> TRUE,  pre |-> "decoy", post |-> "none"]
-      [] i = 5 -> [section |-> FALSE, dir |-> None, unknown |-> FALSE, pre |-> "decoy", post |-> "none"]
+    CASE i = 1 -> [section |-> TRUE,  dir |-> None, unknown |-> FALSE, pre |-> "plain", post |-> "none", hdr |-> "plain"]
+      [] i = 2 -> [section |-> TRUE,  dir |-> "tr", unknown |-> TRUE,  pre |-> "decoy", post |-> "deps", hdr |-> "plain"]
+      [] i = 3 -> [section |-> TRUE,  dir |-> "tr", unknown |-> FALSE, pre |-> "plain", post |-> "deps", hdr |-> "plain"]
+      [] i = 4 -> [section |-> TRUE,  dir |-> None, unknown |-> TRUE,  pre |-> "decoy", post |-> "none", hdr |-> "plain"]
+      [] i = 5 -> [section |-> FALSE, dir |-> None, unknown |-> FALSE, pre |-> "decoy", post |-> "none", hdr |-> "plain"]
       \* locales-dir spellings: a hidden directory, a nested one, one above the crate (the crate then lives in a sub-directory
       \* of the case), a leading "./"
-      [] i = 6 -> [section |-> TRUE,  dir |-> ".i18n", unknown |-> FALSE, pre |-> "plain", post |-> "none"]
-      [] i = 7 -> [section |-> TRUE,  dir |-> "a/b", unknown |-> FALSE, pre |-> "plain", post |-> "deps"]
-      [] i = 8 -> [section |-> TRUE,  dir |-> "../up", unknown |-> FALSE, pre |-> "plain", post |-> "none"]
-      [] i = 9 -> [section |-> TRUE,  dir |-> "./tr", unknown |-> FALSE, pre |-> "decoy", post |-> "none"]
+      [] i = 6 -> [section |-> TRUE,  dir |-> ".i18n", unknown |-> FALSE, pre |-> "plain", post |-> "none", hdr |-> "plain"]
+      [] i = 7 -> [section |-> TRUE,  dir |-> "a/b", unknown |-> FALSE, pre |-> "plain", post |-> "deps", hdr |-> "plain"]
+      [] i = 8 -> [section |-> TRUE,  dir |-> "../up", unknown |-> FALSE, pre |-> "plain", post |-> "none", hdr |-> "plain"]
+      [] i = 9 -> [section |-> TRUE,  dir |-> "./tr", unknown |-> FALSE, pre |-> "decoy", post |-> "none", hdr |-> "plain"]
+      \* the section header is TOML, not a marker: a commented-out older copy of the section above the real one, a string that
+      \* mentions the header, and the equivalent TOML spellings of the same table (blanks inside the brackets, a quoted key,
+      \* an inline table under [package.metadata], `inherits` written as a sub-table) all denote the same configuration;
+      \* a header that only occurs in a comment is no section at all
+      [] i = 10 -> [section |-> TRUE,  dir |-> None, unknown |-> FALSE, pre |-> "commented", post |-> "none", hdr |-> "plain"]
+      [] i = 11 -> [section |-> TRUE,  dir |-> "tr", unknown |-> TRUE,  pre |-> "mention", post |-> "deps", hdr |-> "plain"]
+      [] i = 12 -> [section |-> TRUE,  dir |-> None, unknown |-> FALSE, pre |-> "plain", post |-> "deps", hdr |-> "spaces"]
+      [] i = 13 -> [section |-> TRUE,  dir |-> None, unknown |-> TRUE,  pre |-> "decoy", post |-> "none", hdr |-> "quoted"]
+      [] i = 14 -> [section |-> TRUE,  dir |-> "tr", unknown |-> FALSE, pre |-> "plain", post |-> "deps", hdr |-> "inline"]
+      [] i = 15 -> [section |-> TRUE,  dir |-> None, unknown |-> FALSE, pre |-> "plain", post |-> "deps", hdr |-> "subtable"]
+      [] i = 16 -> [section |-> FALSE, dir |-> None, unknown |-> FALSE, pre |-> "commented", post |-> "none", hdr |-> "plain"]
 
 MCRawConfigs ==
     { [section |-> Variant(v).section, default |-> d, locales |-> ls, namespaces |-> ns, inherits |-> inh,
-       dir |-> Variant(v).dir, unknown |-> Variant(v).unknown, pre |-> Variant(v).pre, post |-> Variant(v).post] :
+       dir |-> Variant(v).dir, unknown |-> Variant(v).unknown, pre |-> Variant(v).pre, post |-> Variant(v).post, hdr |-> Variant(v).hdr] :
         d \in {None, "en", "fr"}, ls \in {Absent} \cup {Some(x) : x \in Lists(MaxLen)}, ns \in NsChoices, inh \in InhChoices,
         v \in TextVariants }
 
@@ -49,7 +60,7 @@ CaseOf(rc, drop) ==
         decoys == IF n.ok THEN (IF ~n.v.namespaces.p THEN << "zz" >> ELSE << "zz/a", "en/zz" >>) ELSE <<>> IN
     [family |-> "config",
      abs |-> [raw |-> rc, drop |-> drop],
-     cfg |-> [raw |-> TRUE, section |-> rc.section, fields |-> Fields(rc), pre |-> rc.pre, post |-> rc.post],
+     cfg |-> [raw |-> TRUE, section |-> rc.section, fields |-> Fields(rc), pre |-> rc.pre, post |-> rc.post, hdr |-> rc.hdr],
      dir |-> IF rc.dir = None THEN "locales" ELSE rc.dir,
      root |-> IF rc.dir = "../up" THEN "crate" ELSE "",
      files |-> [i \in DOMAIN kept |-> <<kept[i], KeyNode("k")>>] \o [i \in DOMAIN decoys |-> <<decoys[i], Garbage>>]]
